@@ -232,6 +232,32 @@ Proof.
   rewrite !(fmul_zv K). f_equal. rewrite EX1, EY1, EX2, EY2. ring.
 Qed.
 
+(* ... and conversely: the backend's equality holds EXACTLY when the two curve points differ by one of the four
+   4-torsion points (0, +-1), (+-i, 0) — RFC 9496 equality is equality modulo that subgroup *)
+Definition tors4F := tors4 Fp f0 f1 fo iF.
+Definition E_cross := cross_eq_iff_tors4 Fp f0 f1 fa fm fs fo fd fi Fth F_dec dF iF dF_nonsquare iF_sq two_nzF.
+
+Theorem pt_eqb_iff K P Q : valid P -> valid Q ->
+  (pt_eqb K P Q = true <-> tors4F (eadd (aff P) (eneg (aff Q)))).
+Proof.
+  intros VP VQ.
+  pose proof (valid_coords P VP) as CP. pose proof (valid_coords Q VQ) as CQ.
+  destruct VP as (Hz1 & C1 & _), VQ as (Hz2 & C2 & _).
+  destruct (aff P) as [x1 y1] eqn:EP, (aff Q) as [x2 y2] eqn:EQ.
+  destruct CP as (EX1 & EY1 & _), CQ as (EX2 & EY2 & _).
+  rewrite <- (E_cross x1 y1 x2 y2 C1 C2).
+  assert (Hzz : fm (F (pz P)) (F (pz Q)) <> f0) by (apply E_mul_nz; assumption).
+  unfold pt_eqb. rewrite orb_true_iff, !Z.eqb_eq, !(fmul_zv K).
+  rewrite EX1, EY1, EX2, EY2.
+  split.
+  - intros [H|H]; apply (Zp_eq fp) in H; [left|right]; apply (fm_cancel_r _ _ (fm (F (pz P)) (F (pz Q))) Hzz).
+    + transitivity (fm (fm x1 (F (pz P))) (fm y2 (F (pz Q)))); [ring|]. rewrite H. ring.
+    + transitivity (fm (fm y1 (F (pz P))) (fm y2 (F (pz Q)))); [ring|]. rewrite H. ring.
+  - intros [H|H]; [left|right]; f_equal.
+    + transitivity (fm (fm x1 y2) (fm (F (pz P)) (F (pz Q)))); [ring|]. rewrite H. ring.
+    + transitivity (fm (fm y1 y2) (fm (F (pz P)) (F (pz Q)))); [ring|]. rewrite H. ring.
+Qed.
+
 (* ---------------------------------------------------------------- the base point *)
 Lemma valid_base K : valid (pt_base K).
 Proof.
